@@ -186,6 +186,11 @@ def subst_values(name, dom, tier, siblings=None):
                     vals.append(("B", "add", ("B", "mul", N(2.0), V(o, "real")), N(1.0)))
                     vals.append(V(o, "real"))
                     vals.append(("U", "exp", (), V(o, "real")))
+            # a tensor indexed by a sibling integer input of the term (e.g. the index a Cat / Stack introduces itself):
+            # the value's name and the term's own name must be identified on the diagonal, not merged
+            for o, d in list((siblings or {}).items()):
+                if o != name and d[0] != "real" and d[1] == () and not (o == "i" and d[0] == SIZES["i"]):
+                    vals.append(T((o,), lid=37, sizes={o: d[0]}))
         else:
             vals += [T((), shape, lid=33), T("j", shape, lid=34), V("v", "real", shape)]
             # a batch of arrays whose batch size equals the leading event size (an index applied to the wrong block of
